@@ -103,6 +103,25 @@ class C07(TraceCheck):
                     yield {"h": h, "w": w, "hide": n % 2, "keep": 0, "pre": pre,
                            "steps": [{"arr": [A, first], "cp": [1, 0], "kind": "list"}, {"arr": [A, second], "cp": [1, 1], "kind": "list"},
                                      {"arr": [first, second], "cp": [0, 0], "kind": "list"}]}
+        # rows holding characters that take one cell but are no letters (NO-BREAK SPACE, EM SPACE, a private-use glyph,
+        # SOFT HYPHEN), and rows of two adjacent single-attribute chunks in every order
+        odd = [frow([[[49, 48, 160, 107, 109], PLAIN]]), frow([[[109, 57520, 126], RED], [[8195, 120], PLAIN]]),
+               frow([[[97, 173, 98], [0, 5, 2, 0, 0, 0, 0, 0]]]), frow([[[160, 160], [0, 2, 0, 0, 0, 0, 0, 0]]])]
+        one = []
+        for i in range(8):
+            a = [0] * 8
+            a[i] = 3 if i < 2 else 2
+            one.append(a)
+        pairs = [frow([[[111, 107], list(x)], [[110, 111], list(y)]]) for x in one for y in one if x != y]
+        for pre in (0, 2):
+            for hide in (0, 1):
+                n += 1
+                yield {"h": 5, "w": 7, "hide": hide, "keep": n % 2, "pre": pre,
+                       "steps": [{"arr": odd, "cp": [0, 0], "kind": "list"}, {"arr": odd[::-1] + odd[:2], "cp": [2, 1], "kind": "list"}]}
+        for k in range(0, len(pairs), 4):
+            n += 1
+            yield {"h": 4, "w": 6, "hide": n % 2, "keep": 0, "pre": n % 3,
+                   "steps": [{"arr": pairs[k:k + 3], "cp": [0, 0], "kind": "list"}, {"arr": pairs[k + 1:k + 4], "cp": [1, 1], "kind": "list"}]}
         # REPL-like growth: every render shows the previous array plus a few more lines (so earlier rows are row-cache
         # hits), the cursor stays in the same column on the last row; the window starts below existing output
         base_pool = lines_for(6)
